@@ -294,3 +294,12 @@ Proof.
   unfold same_field_same_name in H. cbn [fst snd] in H.
   rewrite (find_assoc _ _ _ Hjc Hcen) in H. cbn [snd] in H. apply path_eqb_eq in H. symmetry. exact H.
 Qed.
+
+Lemma msg_names_sound except server client : msg_names_agree except server client = true ->
+  forall g js jc, In (g, js) server -> In (g, jc) client -> NoDup (map fst client) -> ~ In g except -> js = jc.
+Proof.
+  intros H g js jc Hs Hc Hn Hex. unfold msg_names_agree in H. rewrite forallb_forall in H. specialize (H _ Hs). cbn [fst snd] in H.
+  apply orb_true_iff in H as [H|H].
+  - exfalso. apply Hex. apply existsb_exists in H as (x & Hx & E). apply String.eqb_eq in E. subst. exact Hx.
+  - rewrite (find_assoc _ _ _ Hc Hn) in H. cbn [snd] in H. apply String.eqb_eq in H. symmetry. exact H.
+Qed.
